@@ -26,6 +26,12 @@
 //!                                still alive (an ordinary scope) and the other after it is destroyed (every `try_with`
 //!                                fails).  Before that the thread's remaining guards are dropped innermost-first.  The
 //!                                controller joins the thread; a later op on <t> starts a fresh OS thread.
+//!      | exitguard <t> <d>       thread t drops its remaining guards innermost-first, calls set_default(&d) and stores the
+//!                                DefaultGuard in a thread-local that was registered when the thread started (before its first
+//!                                use of tracing, hence destroyed AFTER tracing-core's CURRENT_STATE), then EXITS; joined.
+//!      | tryinit <t>             (package harness/dispatch_init only) thread t: `SubscriberInitExt::try_init` of
+//!                                tracing-subscriber on a fresh recording collector (the next `col` line) — the public wrapper
+//!                                of set_global_default; prints its collector number and whether it returned Ok.
 //! Threads are real OS threads, created at first use, driven one op at a time by the controller (main).
 //! Encodings equal Dispatch/Model.v: dispatcher 0 = none, c+1 = collector c; interest 0/1/2; level rank 0..5.
 use std::io::{Read, Write};
@@ -343,12 +349,15 @@ impl Drop for FlushOnExit {
     }
 }
 thread_local! {
+    static GUARDSLOT: std::cell::RefCell<Option<DefaultGuard>> = const { std::cell::RefCell::new(None) };
     static EARLY: std::cell::RefCell<Option<FlushOnExit>> = const { std::cell::RefCell::new(None) };
     static LATE: std::cell::RefCell<Option<FlushOnExit>> = const { std::cell::RefCell::new(None) };
 }
 
 enum Cmd {
     Exit(Option<Dispatch>, usize),
+    ExitGuard(Option<Dispatch>),
+    TryInit(Rec),
     Open(Option<Dispatch>),
     Close(usize),
     SetGlobal(Dispatch),
@@ -370,6 +379,7 @@ fn nest(ds: &[Dispatch], f: &mut dyn FnMut()) {
 fn worker(rx: mpsc::Receiver<Cmd>, tx: mpsc::Sender<String>) {
     // register EARLY's destructor before this thread uses tracing at all
     EARLY.with(|s| drop(s.borrow_mut().take()));
+    GUARDSLOT.with(|s| drop(s.borrow_mut().take()));
     let mut guards: Vec<DefaultGuard> = Vec::new();
     while let Ok(cmd) = rx.recv() {
         let reply = match cmd {
@@ -433,6 +443,29 @@ fn worker(rx: mpsc::Receiver<Cmd>, tx: mpsc::Sender<String>) {
                 format!("\"d\":{},\"unwound\":{}", seen, r.is_err() as u8)
             }
             Cmd::Quit => break,
+            Cmd::ExitGuard(d) => {
+                while let Some(g) = guards.pop() {
+                    drop(g);
+                }
+                let d = d.unwrap_or_else(Dispatch::none);
+                let g = dispatch::set_default(&d);
+                drop(d);
+                GUARDSLOT.with(|s| *s.borrow_mut() = Some(g));
+                break;
+            }
+            Cmd::TryInit(rec) => {
+                #[cfg(feature = "init")]
+                let ok = {
+                    use tracing_subscriber::util::SubscriberInitExt;
+                    rec.try_init().is_ok()
+                };
+                #[cfg(not(feature = "init"))]
+                let ok = {
+                    drop(rec);
+                    false
+                };
+                format!("\"ok\":{}", ok as u8)
+            }
             Cmd::Exit(d, cs) => {
                 // CURRENT_STATE is registered now at the latest: after EARLY, before LATE
                 let _ = dispatch::get_current(|_| ());
@@ -570,6 +603,35 @@ fn run_one(text: &str) {
                 }
                 None => body = "\"bad\":1".to_string(),
             },
+            "exitguard" => match disp_of(&handles, num(w[3])) {
+                Some(d) => {
+                    let t = num(w[2]);
+                    let _ = send(&mut workers, t, Cmd::GetDefault(None));
+                    let mut wk = workers[t].take().unwrap();
+                    wk.tx.send(Cmd::ExitGuard(d)).expect("worker gone");
+                    wk.jh.take().unwrap().join().expect("worker panicked at exit");
+                }
+                None => body = "\"bad\":1".to_string(),
+            },
+            "tryinit" => {
+                if cfg!(feature = "init") {
+                    let c = handles.len();
+                    let (thr, tg, dy, hint) = confs.get(c).cloned().expect("not enough `col` lines");
+                    let flag = Arc::new(AtomicBool::new(dy != 1));
+                    let filt = Filt {
+                        thr: FILTERS[thr],
+                        tgts: tg.into_iter().filter(|t| *t < TARGETS.len()).collect(),
+                        dynamic: dy != 0,
+                        hint: if hint == 0 { None } else { Some(FILTERS[hint - 1]) },
+                    };
+                    handles.push(None); // the collector is consumed by try_init: no user handle
+                    flags.push(Some(flag.clone()));
+                    let r = send(&mut workers, num(w[2]), Cmd::TryInit(Rec { id: c, filt, flag }));
+                    body = format!("\"c\":{},{}", c, r);
+                } else {
+                    body = "\"bad\":1".to_string();
+                }
+            }
             "rebuild" => tracing_core::callsite::rebuild_interest_cache(),
             "flip" => {
                 let c = num(w[2]);
